@@ -298,7 +298,10 @@ template <size_t N, size_t M, class Tc, class Tidx, class Tout> static void nn_h
 {
     using P = vf::probe<N, M, Tidx, Tout>;
     using L = backend::nearest_neighbour<P, vector::vector_d<Tc, N>>;
-    constexpr double LIM = std::is_same_v<Tc, float> ? 8388608.0 : 4503599627370496.0;   // 2^23 / 2^52
+    constexpr double FLIM = std::is_same_v<Tc, float> ? 8388608.0 : 4503599627370496.0;   // 2^23 / 2^52
+    // a backend indexed by a narrow integer type has at most max(Tidx) + 1 cells per axis
+    constexpr double TLIM = sizeof(Tidx) < 8 ? static_cast<double>(std::numeric_limits<Tidx>::max()) + 1.0 : FLIM;
+    constexpr double LIM = TLIM < FLIM ? TLIM : FLIM;
     Tc x[N];
     typename field<L>::coordinate_t c;
     for (size_t k = 0; k < N; k++) {
